@@ -159,7 +159,10 @@ func checkC45(groups []mGroup, sets [][]mMatcher, replicaLabels []string) (strin
 }
 
 var c45Values = []string{"0", "1", "2"}
-var c45Templated = []string{"{{ $labels.x }}", "p-{{ $labels.y }}", "{{ $value }}", "{{ $labels.a }}1"}
+// Templated values: "$labels"/"$value" are only defined by the preamble Prometheus prepends at
+// expansion time, so parsing them stand-alone fails (⇒ templated); ".Labels.x" and literal actions
+// parse fine and are recognised by their node type.
+var c45Templated = []string{"{{ $labels.x }}", "p-{{ $labels.y }}", "{{ $value }}", "{{ $labels.a }}1", "{{ .Labels.x }}", "1{{ .Value }}", "{{ \"0\" }}", "{{ .Labels.a }}"}
 
 func genC45Labels(rt *rapid.T) []mLabel {
 	var out []mLabel
